@@ -100,6 +100,7 @@ func plans(id, tier string) (Plan, bool) {
 			{Pkg: pkgV2, Harness: "c04_config", Shards: pick(4, 8)},
 			{Pkg: pkgV2, Harness: "c04_dictwords", Shards: 8},
 			{Pkg: pkgV2, Harness: "c04_numbering", Shards: 16},
+			{Pkg: pkgV2, Harness: "c04_replace", Shards: pick(4, 16)},
 			{Pkg: pkgV2, Harness: "c04_trace", Shards: pick(4, 8)},
 			{Pkg: pkgV2, Harness: "c04_processes", Shards: 1, MaxProcs: 4},
 		}...)}, true
@@ -111,6 +112,7 @@ func plans(id, tier string) (Plan, bool) {
 			{Pkg: pkgV2, Harness: "c05_match", Params: "mode=perline", Shards: pick(4, 16)},
 			{Pkg: pkgV2, Harness: "c05_match", Params: "mode=pairs", Shards: pick(8, 16)},
 			{Pkg: pkgV2, Harness: "c05_match", Params: "mode=notices", Shards: pick(4, 8)},
+			{Pkg: pkgV2, Harness: "c05_match", Params: "mode=longwords", Shards: 16},
 		}
 		return Plan{Level: "exploration", Jobs: jobs}, true
 	case "C06":
@@ -120,6 +122,8 @@ func plans(id, tier string) (Plan, bool) {
 			{Pkg: pkgV2, Harness: "c06_match", Params: map[bool]string{false: "docs=431;positions=1", true: "docs=431;positions=12"}[th], Shards: 16},
 			// CRLF line ends in text and edit (no word splits: a hyphen before CR LF is not a line-end hyphen)
 			{Pkg: pkgV2, Harness: "c06_match", Params: map[bool]string{false: "eol=crlf;docs=431;positions=1;kinds=notice,date,marker", true: "eol=crlf;docs=431;positions=4;kinds=notice,date,marker,spelling,https"}[th], Shards: 16},
+			// the document behind 4 000 / 16 000 / 65 000 pairwise different words
+			{Pkg: pkgV2, Harness: "c06_match", Params: map[bool]string{false: "prefix=distinct;docs=3;maxbytes=1500;positions=2;kinds=notice,marker", true: "prefix=distinct;docs=8;maxbytes=3000;positions=3;kinds=notice,date,marker,spelling"}[th], Shards: 16},
 			// the same documents with every paragraph on one line (lines of hundreds of words)
 			{Pkg: pkgV2, Harness: "c06_match", Params: map[bool]string{false: "layout=unwrap;docs=431;positions=1;kinds=marker,split,notice", true: "layout=unwrap;docs=431;positions=6"}[th], Shards: 16},
 			{Pkg: pkgV2, Harness: "c06_match", Params: map[bool]string{false: "docs=4;maxbytes=1200;positions=0;kinds=notice,marker,split,splitnotice", true: "docs=60;maxbytes=6000;positions=0"}[th], Shards: 16},
@@ -156,6 +160,7 @@ func plans(id, tier string) (Plan, bool) {
 			{Pkg: pkgV2, Harness: "c08_pads", Shards: pick(6, 16)},
 			{Pkg: pkgV2, Harness: "c08_faults", Shards: pick(6, 16)},
 			{Pkg: pkgV2, Harness: "c08_stutter", Shards: pick(4, 16)},
+			{Pkg: pkgV2, Harness: "c08_short", Shards: pick(4, 16)},
 			// the same with every trace phase switched on (diagnostic code runs on the same paths)
 			{Pkg: pkgV2, Harness: "c08_faults", Params: "trace=all", Shards: pick(6, 16)},
 			{Pkg: pkgV2, Harness: "c08_chunks", Params: map[bool]string{false: "inputs=2;deviations=1;trace=all", true: "inputs=6;deviations=2;trace=all"}[th], Shards: pick(4, 16)},
@@ -185,6 +190,9 @@ func plans(id, tier string) (Plan, bool) {
 		// two long inputs of equal length with a common 5 KB head and different documents behind it
 		jobs = append(jobs, Job{Pkg: pkgV2, Harness: "c09_sched", Instr: "v2coarse", Params: fmt.Sprintf("scenario=11;threads=2;api=match;policy=delay;budget=%d", pick(1, 2)), Shards: pick(4, 8)})
 		jobs = append(jobs, Job{Pkg: pkgV2, Harness: "c09_sched", Instr: "v2coarse", Params: "scenario=11;threads=2;policy=delay;budget=1", Shards: pick(2, 8)})
+		// two calls on a 4 300-word document (sizes at which a library may take other paths or ration resources)
+		jobs = append(jobs, Job{Pkg: pkgV2, Harness: "c09_sched", Instr: "v2coarse", Params: "scenario=13;threads=2;api=match;policy=delay;budget=1", Shards: pick(4, 8)})
+		jobs = append(jobs, Job{Pkg: pkgV2, Harness: "c09_sched", Instr: "v2coarse", Params: "scenario=14;threads=2;policy=delay;budget=1", Shards: pick(2, 8)})
 		jobs = append(jobs, Job{Pkg: pkgV2, Harness: "c09_access_corpus", Instr: "v2access", Shards: 16})
 		if th {
 			for sc := 0; sc < 4; sc++ {
@@ -212,6 +220,7 @@ func plans(id, tier string) (Plan, bool) {
 		}
 		jobs = append(jobs, Job{Pkg: pkgV2, Harness: "c10_window", Shards: 16})
 		jobs = append(jobs, Job{Pkg: pkgV2, Harness: "c10_wordsets", Shards: 16})
+		jobs = append(jobs, Job{Pkg: pkgV2, Harness: "c10_entities", Shards: 8})
 		// every trace phase switched on (diagnostic code on the same paths)
 		jobs = append(jobs, Job{Pkg: pkgV2, Harness: "c10_total", Params: fmt.Sprintf("shape=3;maxlen=%d;trace=all", pick(2, 3)), Shards: pick(4, 16), MaxProcs: 2})
 		return Plan{Level: "exploration", Jobs: jobs}, true
@@ -281,6 +290,7 @@ func plans(id, tier string) (Plan, bool) {
 			{Pkg: pkgExtV1, Harness: "c15_archive", Instr: "v1", Params: "mode=singles", Shards: 16},
 			{Pkg: pkgExtV1, Harness: "c15_archive", Instr: "v1", Params: "mode=tuples", Shards: 16},
 			{Pkg: pkgExtV1, Harness: "c15_archive", Instr: "v1", Params: "mode=many", Shards: 5},
+			{Pkg: pkgExtV1, Harness: "c15_archive", Instr: "v1", Params: "mode=counts", Shards: 8},
 			{Pkg: pkgExtV1, Harness: "c15_history", Instr: "v1", Shards: pick(4, 16)},
 		}}, true
 	case "C16":
